@@ -163,6 +163,9 @@ def c01(ck):
     # in every host tag, and the rendered output of the accepted ones through LiquidInterp
     ck.replay_stage("arguments", "MC_Lex", "MC_Lex_quick.cfg" if ck.tier == "quick" else "MC_Lex_thorough.cfg",
                     tlc_workers=10, harness_workers=4, timeout=3400)
+    # comments from text: nested comments with malformed headers / end tags are errors, whatever else the comment hides
+    ck.replay_stage("comments-from-text", "MC_Lex", "MC_Lex_comment_quick.cfg" if ck.tier == "quick" else "MC_Lex_comment_thorough.cfg",
+                    tlc_workers=8, timeout=3400)
     args = ["soups", "--cases", "4000", "--lexlen", "2"] if ck.tier == "quick" else ["soups", "--cases", "40000", "--lexlen", "3"]
     ck.trace_stage("soups", args, "Trace_Calls", "Trace_Calls.cfg", heap="6g", timeout=3400, split=8, boundary="Call")
 
@@ -296,6 +299,9 @@ def c09(ck):
                       "each call is compared with the specification's function of (template, data) on the shared parser and on a fresh parser"]
     ck.replay_stage("hist3lazy", "MC_C09", "MC_C09_lazy.cfg")
     ck.replay_stage("hist3eager", "MC_C09", "MC_C09_eager.cfg")
+    # histories over templates that use filters (date parsing, sorting, string and arithmetic filters), data differing only in
+    # case / blanks / order: every call must equal the same call executed alone (fresh parser, fresh thread)
+    ck.replay_stage("filter-histories", "MC_C09F", "MC_C09F_quick.cfg" if ck.tier == "quick" else "MC_C09F_thorough.cfg", tlc_workers=4)
     if ck.tier != "quick":
         ck.replay_stage("walks6", "MC_C09", "MC_C09_sim6.cfg", simulate=3000, depth=700, seed=ck.seed, exhaustive=False,
                         tlc_workers=8, timeout=3000)
